@@ -943,3 +943,5 @@ def check(run, prog):
     rule_order(run, prog)
     rule_restore(run, prog)
     rule_ambient(run, prog)
+    from .c06_longlived import rule_long_lived
+    rule_long_lived(run, prog)               # R-6.7
